@@ -94,7 +94,12 @@ SCOPE = (
     "More nodes than samples (checks EventSeries.__init__/threshold-more-variables-than-samples, "
     "EventSeriesClimateNetwork/construct-more-nodes-than-samples): integer observables [time, "
     "variables] with T=5..8 < N <= T+3, quantile thresholds: the event matrix is the T x N matrix of "
-    "samples beyond each variable's threshold and the network has N nodes.")
+    "samples beyond each variable's threshold and the network has N nodes.  Documented errors "
+    "(checks .../rejects/...): 3 (thorough 20) seeded data sets x 18 argument sets (quantile outside "
+    "[0,1], value outside the variable's range, unknown method / type / symmetrisation / window, "
+    "per-variable arguments of the wrong length, non-binary data without a method, timestamps of the "
+    "wrong length, ECA with an infinite window given as the default or as float('inf')): the call must "
+    "raise.")
 RULE = (
     "Distinct+nontrivial: an ES pair counts when both sequences have >= 3 events (inner events "
     "exist); an ECA pair when both are non-empty and at least one rate is defined for some setting; a "
@@ -1022,6 +1027,10 @@ def check_escn_sig(rep, Em, mode, method, taumax, lag, sym, window, p_value, rse
         if A[i, j] != (1 if want > 0 else 0):
             bad_a.append((i, j, int(A[i, j]), 1 if want > 0 else 0))
     name = "pval-method" if mode == "pval" else "p_value"
+    gotE = np.asarray(net.get_event_matrix())
+    if gotE.shape != arr.shape or not np.array_equal(gotE.astype(int), arr.astype(int)):
+        rep.fail("EventSeriesClimateNetwork/%s-event-matrix" % name, W,
+                 "the surrogates changed the stored event matrix: %s" % (gotE.T.tolist(),))
     if bad_s:
         rep.fail("EventSeriesClimateNetwork/%s-similarity" % name, W, "(i,j,got,expected,why): %r" % (bad_s[:3],))
     if bad_a:
@@ -1289,6 +1298,70 @@ def job_escn_wide(rep, seed, count):
         check_escn_wide(rep, obs, thr)
 
 
+REJECTS = [
+    # (check suffix, how to call) - every entry is an argument set for which the docstrings state
+    # an error (no stated quantile / value / method / window exists, so no event matrix or rate
+    # can be "exactly the samples beyond it")
+    ("make_event_matrix/rejects/quantile-above-1", lambda E, d, b: E.make_event_matrix(
+        d, threshold_method="quantile", threshold_values=1.5, threshold_types="above")),
+    ("make_event_matrix/rejects/quantile-below-0", lambda E, d, b: E.make_event_matrix(
+        d, threshold_method="quantile", threshold_values=-0.25, threshold_types="above")),
+    ("make_event_matrix/rejects/value-above-range", lambda E, d, b: E.make_event_matrix(
+        d, threshold_method="value", threshold_values=float(d.max()) + 1.0, threshold_types="above")),
+    ("make_event_matrix/rejects/value-below-range", lambda E, d, b: E.make_event_matrix(
+        d, threshold_method="value", threshold_values=float(d.min()) - 1.0, threshold_types="below")),
+    ("make_event_matrix/rejects/unknown-method", lambda E, d, b: E.make_event_matrix(
+        d, threshold_method="percentile", threshold_values=0.5, threshold_types="above")),
+    ("make_event_matrix/rejects/unknown-type", lambda E, d, b: E.make_event_matrix(
+        d, threshold_method="quantile", threshold_values=0.5, threshold_types="over")),
+    ("make_event_matrix/rejects/methods-wrong-length", lambda E, d, b: E.make_event_matrix(
+        d, threshold_method=["quantile"] * (d.shape[1] + 1), threshold_values=0.5, threshold_types="above")),
+    ("make_event_matrix/rejects/values-wrong-length", lambda E, d, b: E.make_event_matrix(
+        d, threshold_method="quantile", threshold_values=[0.5] * (d.shape[1] + 1), threshold_types="above")),
+    ("make_event_matrix/rejects/types-wrong-length", lambda E, d, b: E.make_event_matrix(
+        d, threshold_method="quantile", threshold_values=0.5, threshold_types=["above"] * (d.shape[1] + 1))),
+    ("EventSeries.__init__/rejects/non-binary-without-method", lambda E, d, b: E(d)),
+    ("EventSeries.__init__/rejects/timestamps-wrong-length", lambda E, d, b: E(
+        b, timestamps=np.arange(b.shape[0] + 1, dtype=float))),
+    ("event_series_analysis/rejects/unknown-method", lambda E, d, b: E(b, taumax=2.0).event_series_analysis(
+        method="EC")),
+    ("event_series_analysis/rejects/ES-unknown-symmetrization", lambda E, d, b: E(
+        b, taumax=2.0).event_series_analysis(method="ES", symmetrization="sum")),
+    ("event_series_analysis/rejects/ECA-symmetrization-not-offered", lambda E, d, b: E(
+        b, taumax=2.0).event_series_analysis(method="ECA", symmetrization="antisym")),
+    ("event_series_analysis/rejects/ECA-unknown-window", lambda E, d, b: E(
+        b, taumax=2.0).event_series_analysis(method="ECA", window_type="centred")),
+    ("event_series_analysis/rejects/ECA-infinite-taumax-default", lambda E, d, b: E(
+        b).event_series_analysis(method="ECA")),
+    ("event_series_analysis/rejects/ECA-infinite-taumax", lambda E, d, b: E(
+        b, taumax=float("inf")).event_series_analysis(method="ECA")),
+    ("event_coincidence_analysis/rejects/unknown-window", lambda E, d, b: E(
+        b, taumax=2.0)._eca_coincidence_rate(b[:, 0], b[:, 1], window_type="centred")),
+]
+
+
+def job_rejects(rep, seed, count):
+    """documented errors: the call must raise, whatever it would otherwise return"""
+    rng = np.random.RandomState(seed)
+    E = ES()
+    for c in range(count):
+        N = int(rng.randint(2, 5))
+        T = int(rng.randint(N + 3, 16))
+        d = rng.randint(0, 9, size=(T, N)).astype(float)
+        d[0, :] = 0.0
+        d[1, :] = 8.0
+        b = (rng.rand(T, N) < 0.5).astype(int)
+        b[0, :] = 0
+        b[1, :] = 1
+        for name, fn in REJECTS:
+            rep.case(("rejects", name, seed, c), nontrivial=True)
+            res, exc = call(fn, E, d.copy(), b.copy())
+            if exc is None:
+                rep.fail(name, {"kind": "rejects", "check": name, "data": d.tolist(), "events": b.tolist()},
+                         "returned %s instead of raising" % (np.asarray(res).tolist()
+                                                             if not isinstance(res, tuple) else repr(res),))
+
+
 def job_threshold_dtype_exh(rep, L, lo, hi, all_dtypes):
     kinds = INT_DTYPES + LOWP_DTYPES
     qs = [F(k, 8) for k in range(9)]
@@ -1476,7 +1549,8 @@ JOBS = {"pairs": job_pairs, "randpairs": job_randpairs, "matrices": job_matrices
         "threshold_exh": job_threshold_exh, "threshold_rand": job_threshold_rand, "escn": job_escn,
         "threshold_dtype_exh": job_threshold_dtype_exh, "threshold_dtype_rand": job_threshold_dtype_rand,
         "scaled_pairs": job_scaled_pairs, "scaled_matrices": job_scaled_matrices,
-        "narrow_int_probe": job_narrow_int_probe, "escn_sig": job_escn_sig, "escn_wide": job_escn_wide}
+        "narrow_int_probe": job_narrow_int_probe, "escn_sig": job_escn_sig, "escn_wide": job_escn_wide,
+        "rejects": job_rejects}
 
 
 def run_job(spec):
@@ -1533,6 +1607,7 @@ def plan(args):
         jobs.append((args, "scaled_matrices", (s + 600 + k, 20 if quick else 120)))
         jobs.append((args, "escn_sig", (s + 700 + k, 6 if quick else 40)))
     jobs.append((args, "escn_wide", (s + 800, 6 if quick else 40)))
+    jobs.append((args, "rejects", (s + 900, 3 if quick else 20)))
     L, alpha = (5, 3) if quick else (6, 4)
     tot = alpha ** L
     step = -(-tot // 8)
@@ -1594,6 +1669,12 @@ def replay(rep, w):
     elif k == "escn_sig":
         check_escn_sig(rep, w["E"], w["mode"], w["method"], frac(w["taumax"]), F(w["lag"]), w["sym"],
                        w["window"], w["p_value"], w["rseed"])
+    elif k == "rejects":
+        fn = dict(REJECTS)[w["check"]]
+        rep.case(("rejects", w["check"]), nontrivial=True)
+        res, exc = call(fn, ES(), np.array(w["data"], dtype=float), np.array(w["events"], dtype=int))
+        if exc is None:
+            rep.fail(w["check"], w, "returned %r instead of raising" % (res,))
     elif k == "escn_wide":
         obs = [[F(v) for v in row] for row in w["obs"]]
         check_escn_wide(rep, obs, (w["thr"][0], F(w["thr"][1]), w["thr"][2]))
